@@ -284,6 +284,15 @@ def run(w: World, rep: Report):
     rep.check('C12.R7', 'classes.Tape.read|bounds', ok, line=tr.node.lineno, file='tapescript/classes.py',
               why='' if ok else 'Tape.read can return without checking pointer + size <= len(data)')
 
+    from .report import depend
+    depend(rep, w, 'rules_c11', ('C11.R7',), 'C12.TD11',
+           'what the decompiler prints for a push with an explicit size (`OP_PUSH1 d<n> x<hex>`, `d0 x` for the empty '
+           'payload) is read back as size and value: the compiler\'s one- vs two-symbol choice keeps no value spelling '
+           'out and consults the instruction tables (C11.R7 re-evaluated)', floor=4)
+    depend(rep, w, 'rules_c07', ('C07.R7',), 'C12.TD7',
+           'Tape.read - the only way the decompiler consumes bytes - fails only with its own error: its guard message '
+           'cannot raise by itself (C07.R7 re-evaluated for the guards of classes.py)', floor=1,
+           only=lambda c: 'guard-messages' in c)
     rep.explanation = (
         'Termination of decompile_script is decided structurally: all read sizes are non-negative '
         '(R1), each loop iteration consumes >= 1 byte (R2), recursion is on strictly shorter byte '
@@ -539,6 +548,15 @@ def _emission(w, rep, armtag, names, body):
                 # exactly for 0) and the appended bytes are decided by evaluation, not by their spelling.
                 if isinstance(n, ast.If) and len(free_names(n.test)) == 1:
                     v = next(iter(free_names(n.test)))
+                    # the tested name is the byte length of the EXCEPT clause (somewhere assigned from a len(..)), not a
+                    # flag that merely says whether an EXCEPT keyword was seen
+                    is_len = any(isinstance(a2, (ast.Assign, ast.AugAssign)) and
+                                 any(isinstance(t2, ast.Name) and t2.id == v for t2 in
+                                     (a2.targets if isinstance(a2, ast.Assign) else [a2.target])) and
+                                 any(isinstance(c2, ast.Call) and isinstance(c2.func, ast.Name) and c2.func.id in ('len', 'sum')
+                                     for c2 in ast.walk(a2.value)) for a2 in ast.walk(pt.node))
+                    if not is_len:
+                        continue
                     try:
                         only_zero = [bool(feval(n.test, {v: k})) for k in range(0, 6)] == [True] + [False] * 5
                     except Unknown:
